@@ -65,7 +65,8 @@ Definition pnv_body (fl : flags) (line : str) (s : pstate) : step pstate :=
                   p_using_quotes := p_using_quotes s; p_in_control := false;
                   p_found_end := true; p_found_variable_prefix := p_found_variable_prefix s |}
       else if negb (p_using_quotes s) &&
-              ((character =? c_sp) || (character =? c_hash) || (stop_on_equals fl && (character =? c_eq))) then
+              ((character =? c_sp) || ((character =? c_hash) && negb (control_as_char fl)) ||
+               (stop_on_equals fl && (character =? c_eq))) then
         if (character =? c_sp) || (character =? c_eq) then
           match usize_dec index with           (* index -= 1 *)
           | None => SPanic
@@ -81,7 +82,7 @@ Definition pnv_body (fl : flags) (line : str) (s : pstate) : step pstate :=
                     p_using_quotes := p_using_quotes s; p_in_control := false;
                     p_found_end := true; p_found_variable_prefix := p_found_variable_prefix s |}
       else SContinue (push character s index false (p_found_variable_prefix s))
-    else if character =? c_hash then
+    else if (character =? c_hash) && negb (control_as_char fl) then
       SBreak {| p_argument := p_argument s; p_index := length line; p_in_argument := false;
                 p_using_quotes := p_using_quotes s; p_in_control := p_in_control s;
                 p_found_end := p_found_end s; p_found_variable_prefix := p_found_variable_prefix s |}
